@@ -64,6 +64,10 @@ fn ilv_programs() -> Vec<Program> {
         p.tolerate_value_missing = true;
         v.push(p);
     }
+    // two clients move the deadlines of two keys between the same two expiry shards in opposite directions; afterwards
+    // the sweeper and the worker must still get at both shards (probes of the epilogue)
+    v.push(mk("upsert(a, ttl: shard 1 -> 0) || upsert(b, ttl: shard 0 -> 1)", 200, vec![put_ttl(1, 30, 1000), put_ttl(2, 30, 2000)], vec![vec![ups(1, true, Some(30), Some(2000), false)], vec![ups(2, true, Some(30), Some(1000), false)]]));
+    v.push(mk("upsert(a, ttl: shard 1 -> 0) || upsert(b, ttl: shard 0 -> 1) || {clock+3s;tick}", 200, vec![put_ttl(1, 30, 1000), put_ttl(2, 30, 2000)], vec![vec![ups(1, true, Some(30), Some(2000), false)], vec![ups(2, true, Some(30), Some(1000), false)], vec![adv(3000), Op::Tick]]));
     v.push(mk("evicting-put(c, w=W) || get(a);get(a) || {tick}", 3, vec![put_ttl(1, 2, 1000), put(2, 1), adv(3000)], vec![vec![put(3, 3)], vec![get(1), get(2)], vec![Op::Tick]]));
     v
 }
@@ -133,12 +137,42 @@ fn spec(ctx: &Ctx, w: i64, counters: u64) -> SeqSpec {
     }
 }
 
+/// Keys read more often than a 4-bit counter can count, on several counter positions: the access-count consumer
+/// must survive saturation (a panic there is a background panic, and later batches are never applied).
+fn hot_keys_spec(ctx: &Ctx, buffer: usize) -> SeqSpec {
+    let mut prefix = vec![put(1, 1), put(2, 1), put(3, 1)];
+    for _ in 0..18 {
+        for k in 1..=3u64 {
+            prefix.push(get(k));
+        }
+    }
+    SeqSpec {
+        name: format!("seq/saturating-the-sketch/buffer{}", buffer),
+        setup: Setup { weight: 100, counters: 256, queue: 1, pool: 1, buffer, shards: 2, ..Setup::default() },
+        world: Default::default(),
+        prefix,
+        alphabet: vec![get(1), get(2), get(3), put(4, 100), Op::TickWait],
+        depth: if ctx.quick() { 4 } else { 6 },
+        allow: None,
+        oracle: oracle(),
+        keys: vec![1, 2, 3],
+        canon_sketch: true,
+        ghost_key: None,
+        max_states: 2_000_000,
+        time_cap_s: if ctx.quick() { 10.0 } else { 300.0 },
+    }
+}
+
 pub fn def(ctx: &Ctx) -> PropertyDef {
     let mut scenarios: Vec<Scenario> = Vec::new();
     let configs: Vec<(i64, u64)> = if ctx.quick() { vec![(1, 1), (30, 2), (i64::MAX, 3)] } else { vec![(1, 1), (1, 3), (30, 1), (30, 2), (30, 3), (i64::MAX, 1), (i64::MAX, 3)] };
     for (w, c) in configs {
         let name = spec(ctx, w, c).name;
         scenarios.push(seq_scenario(move |cx| spec(cx, w, c), &name));
+    }
+    for buffer in [1usize, 3] {
+        let name = hot_keys_spec(ctx, buffer).name;
+        scenarios.push(seq_scenario(move |cx| hot_keys_spec(cx, buffer), &name));
     }
     for p in ilv_programs() {
         let nthreads = p.threads.len();
